@@ -67,9 +67,24 @@ structure SetInfo where
   extras : Nat := 0
   masks : List Nat := []
   follow : Option (Nat × Nat) := none
+  reserved : List Nat := []
   kws : List Nat := []
   ambig : List Nat := []
   deriving Inhabited
+
+/-- `Z(p~ast/p~ast/…)`: alternatives with their own precedence -/
+def parseAlts (a : String) : List (Int × Regex) :=
+  if a.startsWith "Z(" then
+    let inner := ((a.drop 2).toString.dropEnd 1).toString
+    (inner.splitOn "/").filterMap (fun alt => match alt.splitOn "~" with
+      | [p, ast] => some (p.toInt?.getD 0, (parseRe ast.toList.toArray 0).1)
+      | _ => none)
+  else []
+
+def altRegex : List (Int × Regex) → Regex
+  | [] => .empty
+  | [(_, r)] => r
+  | (_, r) :: rest => .alt r (altRegex rest)
 
 def parseLit (cs : Array Char) : Option (List Nat) :=
   if cs.size > 0 && cs[0]! == 'L' then
@@ -86,7 +101,9 @@ def parseSet (id spec : String) : SetInfo :=
       | p :: s :: ast =>
         let a := ",".intercalate ast
         let cs := a.toList.toArray
-        (({ re := (parseRe cs 0).1, prec := p.toInt?.getD 0, isString := natOf s % 2 == 1, immediate := natOf s / 2 == 1 } : Token),
+        let alts := parseAlts a
+        (({ re := (if alts.isEmpty then (parseRe cs 0).1 else altRegex alts), prec := p.toInt?.getD 0,
+            isString := natOf s % 2 == 1, immediate := natOf s / 2 == 1, alts := alts } : Token),
          (if natOf s % 2 == 1 then parseLit cs else none))
       | _ => (default, none))
     { id := id, toks := toks.map (·.1), texts := toks.map (·.2), word := word, extras := extras }
@@ -104,7 +121,9 @@ def isExtraOf (shape : Nat) (c : Nat) : Bool :=
 def chooser (si : SetInfo) (useRef : Bool) : Nat → List Nat → Option Cand := fun off =>
   let validMain : Nat → Bool := validAt si.toks (fun i => !si.kws.contains i) off
   let validKw : Nat → Bool := fun i => si.kws.contains i
-  let pick (v : Nat → Bool) : List Nat → Option Cand := if useRef then refToken si.toks v else lexScan si.toks v
+  let inner := si.toks.any (fun t => !t.alts.isEmpty)
+  let pick (v : Nat → Bool) : List Nat → Option Cand :=
+    if useRef then refToken si.toks v else if inner then lexScanP si.toks v else lexScan si.toks v
   match si.word with
   | some w => withKeywords (pick validMain) (pick validKw) w
   | none => pick validMain
@@ -160,17 +179,23 @@ structure Tally where
 def parseModeSet (id spec : String) : SetInfo :=
   match spec.splitOn ";" with
   | h :: rest =>
-    let hx := (h.drop 2).toString.splitOn "f"
-    let extras := (hx.headD "0").toNat?.getD 0
-    let follow := match ((hx.drop 1).headD "-").splitOn "." with
+    -- header `mx<extras>f<x.y|->w<word|->r<k.k…|->` (w/r parts optional)
+    let body := (h.drop 2).toString
+    let (xpart, rest1) := match body.splitOn "f" with | [a, b] => (a, b) | _ => (body, "-")
+    let (fpart, rest2) := match rest1.splitOn "w" with | [a, b] => (a, b) | _ => (rest1, "-r-")
+    let (wpart, rpart) := match rest2.splitOn "r" with | [a, b] => (a, b) | _ => (rest2, "-")
+    let extras := xpart.toNat?.getD 0
+    let follow := match fpart.splitOn "." with
       | [a, b] => match a.toNat?, b.toNat? with | some x, some y => some (x, y) | _, _ => none
       | _ => none
+    let word := wpart.toNat?
+    let reserved := (rpart.splitOn ".").filterMap (·.toNat?)
     let toks := rest.map (fun t => match t.splitOn "," with
       | p :: s :: mask :: ast =>
         let cs := (",".intercalate ast).toList.toArray
         (({ re := (parseRe cs 0).1, prec := p.toInt?.getD 0, isString := s == "1" } : Token), natOf mask)
       | _ => (default, 0))
-    { id := id, toks := toks.map (·.1), masks := toks.map (·.2), follow := follow, texts := [], word := none, extras := extras }
+    { id := id, toks := toks.map (·.1), masks := toks.map (·.2), follow := follow, texts := [], word := word, reserved := reserved, extras := extras }
   | _ => {}
 
 /-- grammar-level automaton of a two-mode grammar: mode 0 = before any marker, 1 = A, 2 = B;
@@ -193,6 +218,41 @@ def gStep (si : SetInfo) (st : AState) (t : Nat) : AState :=
   | some (x, _) => { st with pending := t == x && (si.masks.getD x 0) / st.mode % 2 == 1 }
   | none => { st with pending := false }
 
+/-- the lexer of ONE parse state with valid set `vs` (keyword extraction included):
+main lexer over the non-keyword tokens of `vs ∪ reserved` plus the word token when a keyword or the word
+itself is among them; when it returns the word token the keyword lexer (ALL keywords) runs from the same
+start and its answer replaces the word token when it covers the whole word and is valid or reserved. -/
+def stateChoose (si : SetInfo) (vs : List Nat) (useRef : Bool) (inp : List Nat) : Option Cand :=
+  let pickWith (v : Nat → Bool) : Option Cand := if useRef then refToken si.toks v inp else lexScan si.toks v inp
+  match si.word with
+  | none => pickWith (fun i => vs.contains i)
+  | some w =>
+    let res := if vs.contains w then si.reserved else []
+    let base := vs ++ res
+    let mainSet : Nat → Bool := fun i =>
+      (base.contains i && !si.kws.contains i) || (i == w && (vs.contains w || base.any (fun k => si.kws.contains k)))
+    withKeywordsIn (fun _ => pickWith mainSet) (fun _ => pickWith (fun k => si.kws.contains k)) w
+      (fun k => vs.contains k || res.contains k) inp
+
+/-- kind of a deviation between scan and documented order in one parse state: compared at the level of the
+main lexers, and when both return the word token, of the keyword lexers -/
+def classifyState (si : SetInfo) (vs : List Nat) (inp : List Nat) : String :=
+  match si.word with
+  | none => classify si (stateChoose si vs false inp) (stateChoose si vs true inp)
+  | some w =>
+    let res := if vs.contains w then si.reserved else []
+    let base := vs ++ res
+    let mainSet : Nat → Bool := fun i =>
+      (base.contains i && !si.kws.contains i) || (i == w && (vs.contains w || base.any (fun k => si.kws.contains k)))
+    let ms := lexScan si.toks mainSet inp
+    let mr := refToken si.toks mainSet inp
+    if ms != mr then classify si ms mr
+    else match ms with
+      | some (i, _) =>
+        if i == w then classify si (lexScan si.toks (fun k => si.kws.contains k) inp) (refToken si.toks (fun k => si.kws.contains k) inp)
+        else "other"
+      | none => "other"
+
 /-- reference run over the grammar automaton with the given lexer model: tokens `(tok, start, end)`,
 or `none` when some position has no valid token (the sentence is rejected) -/
 partial def autoRun (si : SetInfo) (useRef : Bool) (input : List Nat) (pos : Nat) (st : AState)
@@ -203,10 +263,9 @@ partial def autoRun (si : SetInfo) (useRef : Bool) (input : List Nat) (pos : Nat
   if inp.isEmpty then some acc else
   let off := rest.length - inp.length
   let vs := gValid si st
-  let v : Nat → Bool := fun i => vs.contains i
-  match (if useRef then refToken si.toks v inp else lexScan si.toks v inp) with
+  match stateChoose si vs useRef inp with
   | none => none
-  | some (t, n) => if n == 0 then none else
+  | some (t, n) => if n == 0 || !vs.contains t then none else
     autoRun si useRef input (pos + off + n) (gStep si st t) (acc.push (t, pos + off, pos + off + n))
 
 /-- lock-step over the automaton: kind of the first step where scan and documented choice differ -/
@@ -217,10 +276,9 @@ partial def autoDiffKind (si : SetInfo) (input : List Nat) (pos : Nat) (st : ASt
   if inp.isEmpty then "other" else
   let off := rest.length - inp.length
   let vs := gValid si st
-  let v : Nat → Bool := fun i => vs.contains i
-  let a := lexScan si.toks v inp
-  let b := refToken si.toks v inp
-  if a != b then classify si a b else
+  let a := stateChoose si vs false inp
+  let b := stateChoose si vs true inp
+  if a != b then classifyState si vs inp else
   match a with
   | some (t, n) => if n == 0 then "other" else autoDiffKind si input (pos + off + n) (gStep si st t)
   | none => "other"
@@ -263,8 +321,7 @@ def evalEvents (si : SetInfo) (valid : Array (List Nat)) (cps : String) (input :
       let inp := skipExtras isExtra rest
       let off := rest.length - inp.length
       let vs := valid.getD state []
-      let v : Nat → Bool := fun i => vs.contains i
-      let scan := lexScan si.toks v inp
+      let scan := stateChoose si vs false inp
       let real : Option Cand := if tok < 100000 && pos + off ≤ en then some (tok, en - pos - off) else none
       a := { a with leaves := a.leaves + 1 }
       if ((candidates si.toks (fun _ => true) inp).any (fun c => !vs.contains c.1)) then a := { a with ctx := a.ctx + 1 }
@@ -284,7 +341,7 @@ def evalEvents (si : SetInfo) (valid : Array (List Nat)) (cps : String) (input :
     let off := rest.length - inp.length
     let vs := valid.getD state []
     tok < 100000 && !vs.contains tok && pos + off ≤ en &&
-      (match lexScan si.toks (fun i => vs.contains i) inp with
+      (match stateChoose si vs false inp with
        | some (t', n') => decide ((tokAt si.toks t').prec > (tokAt si.toks tok).prec) && decide (en - pos - off > n')
        | none => false))
   if bad && !(isErr && mergedOvertake) then a := { a with corrBad := a.corrBad + 1, firstCorr := if a.firstCorr == "" then cps else a.firstCorr }
@@ -320,7 +377,7 @@ def evalString (si : SetInfo) (cps : String) (input : List Nat) (r : Option (Lis
   let nt := ((candidates si.toks (fun _ => true) inp0).map (·.1)).eraseDups.length ≥ 2
   let a := if nt then { a with nontrivial := a.nontrivial + 1 } else a
   let a := if mscan != r then { a with corrBad := a.corrBad + 1, firstCorr := if a.firstCorr == "" then cps else a.firstCorr } else a
-  if mref != r then
+  if mref != r && !si.toks.any (fun t => !t.alts.isEmpty) then
     let kind := firstDiffKind si cs cr input
     if kind == "overtake" then { a with dev := a.dev + 1, overtake := a.overtake + 1, firstOvertake := if a.firstOvertake == "" then cps else a.firstOvertake }
     else { a with dev := a.dev + 1, other := a.other + 1, firstOther := if a.firstOther == "" then cps else a.firstOther }
@@ -330,8 +387,11 @@ def step (s : St) (line : String) : IO St := do
   match line.splitOn " " with
   | ["set", id, spec] => return { si := parseSet id spec, variants := #[] }
   | ["mset", id, spec] => return { s with msi := parseModeSet id spec, mvalid := #[], mt := {} }
+  | ["mkw", l] => return { s with msi := { s.msi with kws := if l == "-" then [] else (l.splitOn ",").map natOf } }
+  | ["mambig", l] => return { s with msi := { s.msi with ambig := if l == "-" then [] else (l.splitOn ",").map natOf } }
   | ["vs", _, l] => return { s with mvalid := s.mvalid.push (if l == "-" then [] else (l.splitOn ",").map natOf) }
   | ["m", cps, real] =>
+    if !s.msi.ambig.isEmpty then return { s with mt := { s.mt with strings := s.mt.strings + 1 } }
     let input := if cps == "-" then [] else (cps.splitOn ".").map hexNat
     let parts := real.splitOn ","
     let isErr := parts.headD "E" == "E"
@@ -341,11 +401,14 @@ def step (s : St) (line : String) : IO St := do
     let mt := { s.mt with strings := s.mt.strings + 1, errors := s.mt.errors + (if isErr then 1 else 0) }
     return { s with mt := evalEvents s.msi s.mvalid cps input isErr events mt }
   | ["endmset", id] =>
+    if !s.msi.ambig.isEmpty then
+      IO.println s!"S-{id} skipped=unclassified-keyword-tokens strings={s.mt.strings} ambig={s.msi.ambig}"
+      return s
     let a := s.mt
     let corr := if a.corrBad == 0 then "ok" else s!"DIFF {a.firstCorr}"
     let judge := if a.other > 0 then s!"FAIL other {a.firstOther}" else if a.overtake > 0 then s!"FAIL overtake {a.firstOvertake}" else "ok"
     let distinctSets := (s.mvalid.toList.eraseDups).length
-    IO.println s!"S-{id} corr={corr} judge={judge} strings={a.strings} errors={a.errors} nontrivial={a.ctx} corrbad={a.corrBad} docdev={a.overtake + a.other} overtake={a.overtake} other={a.other} tokens={a.leaves} ntok={s.msi.toks.length} word=false mode=true states={s.mvalid.size} validsets={distinctSets}"
+    IO.println s!"S-{id} corr={corr} judge={judge} strings={a.strings} errors={a.errors} nontrivial={a.ctx} corrbad={a.corrBad} docdev={a.overtake + a.other} overtake={a.overtake} other={a.other} tokens={a.leaves} ntok={s.msi.toks.length} word={s.msi.word.isSome} keywords={s.msi.kws.length} reserved={s.msi.reserved.length} mode=true states={s.mvalid.size} validsets={distinctSets}"
     return s
   | ["kw", l] => return { s with si := { s.si with kws := if l == "-" then [] else (l.splitOn ",").map natOf } }
   | ["ambig", l] =>
